@@ -505,7 +505,7 @@ fn main() {
         &a,
     ));
     let rt = epkit::runtime(8);
-    let n_cases: u64 = a.pick(600, 15000);
+    let n_cases: u64 = a.pick(600, 25000);
     let par: usize = a.pick(6, 12);
     rt.block_on(async {
         let mut rng = Rng::derive(a.seed, "C41", 0);
